@@ -60,6 +60,7 @@ def run(tier, seed, replay=None):
     # the ASCII formats write a fixed number of decimals of a picture/file-wide frame: an object whose extent is 1e-6 of its
     # distance from the origin is below that resolution (SVG collapses it to a point the reader cannot parse back)
     O.OFFSET_PROB = 0.0
+    O.SCALE_PROB = 0.0       # (same reason: objects of magnitude 2^-20 and 2^+20 in one drawing; the G2 block scales by 1e+-9 / 1e+-150 itself)
     l0 = C.l0_check(PID, thorough=(tier == 'thorough'))
     build_pyx.load_splipy()
     import numpy as np
